@@ -130,6 +130,13 @@ func racUF0(name string, a ...*big.Int) *big.Int {
 		return uint(a[k].Uint64())
 	}
 	switch name {
+	case "uf_hasprefix":
+		x, okx := racStrTab[a[0].Uint64()]
+		p, okp := racStrTab[a[1].Uint64()]
+		if okx && okp && strings.HasPrefix(x, p) {
+			return z.SetInt64(1)
+		}
+		return z
 	case "uf_dchar":
 		// character a[1] of the decimal text of |a[0]| (math/big's own text: the trusted meaning of the symbol)
 		t := new(big.Int).Abs(a[0]).Text(10)
@@ -273,7 +280,14 @@ func racExtends(r, b interface{}) bool {
 func racNegZero(p *big.Int) bool {
 	return p != nil && len(p.Bits()) == 0 && p.Cmp(new(big.Int)) != 0
 }
+var racStrTab = map[uint64]string{}
+
 func racStr(s string) *big.Int {
+	c := racStrCode(s)
+	racStrTab[c.Uint64()] = s
+	return c
+}
+func racStrCode(s string) *big.Int {
 	if s == "" {
 		return big.NewInt(0)
 	}
@@ -716,6 +730,26 @@ func (W *World) racTest(fn *ssa.Function, fc *FuncContract) (string, error) {
 	var sb strings.Builder
 	sb.WriteString(racPrelude)
 	counter := 0
+	// A contract with the ghost variables gneg, gC, gE, gech, gform and a text parameter describes a parser: most trials
+	// hand it the text the formatter writes for a generated decimal, with the ghosts set to that decimal.
+	ghostText := ""
+	if len(fc.Ghosts) > 0 {
+		names := map[string]bool{}
+		for _, g := range fc.Ghosts {
+			names[g.Name] = true
+		}
+		if names["gneg"] && names["gC"] && names["gE"] {
+			for i, p := range fn.Params {
+				if isString(p.Type()) {
+					ghostText = params[i].name + " = gtext__"
+				} else if sl, ok := p.Type().Underlying().(*types.Slice); ok {
+					if b, isB := sl.Elem().Underlying().(*types.Basic); isB && b.Kind() == types.Uint8 {
+						ghostText = params[i].name + " = []byte(gtext__)"
+					}
+				}
+			}
+		}
+	}
 	newEnv := func(post bool) *racEnv {
 		e := &racEnv{W: W, vars: map[string]gval{}, params: map[string]bool{}, n: &counter, layer1: fc.Layer1}
 		for i, p := range fn.Params {
@@ -730,6 +764,13 @@ func (W *World) racTest(fn *ssa.Function, fc *FuncContract) (string, error) {
 			}
 			e.vars[params[i].name] = v
 			e.params[params[i].name] = true
+		}
+		if ghostText != "" {
+			// the ghost variables of a parser contract: the decimal whose text was handed in
+			for _, g := range []string{"gC", "gE", "gech", "gform"} {
+				e.vars[g] = gval{s: g + "__", k: gInt}
+			}
+			e.vars["gneg"] = gval{s: "gneg__", k: gBool}
 		}
 		return e
 	}
@@ -765,6 +806,13 @@ func (W *World) racTest(fn *ssa.Function, fc *FuncContract) (string, error) {
 				}
 			}
 		}
+	}
+	if ghostText != "" {
+		sb.WriteString("\t\tgd__ := genDecimal(rng__)\n\t\tgverb__ := []byte{'G', 'G', 'g', 'E', 'e'}[rng__.Intn(5)]\n\t\tgtext__ := gd__.Text(gverb__)\n")
+		sb.WriteString("\t\tif rng__.Intn(8) != 0 { " + ghostText + " }\n")
+		sb.WriteString("\t\tgneg__, gC__, gE__, gform__ := gd__.Negative, gd__.Coeff.MathBigInt(), big.NewInt(int64(gd__.Exponent)), big.NewInt(int64(gd__.Form))\n")
+		sb.WriteString("\t\tgech__ := big.NewInt(int64(gverb__))\n\t\tif gverb__ == 'G' { gech__ = big.NewInt(69) } else if gverb__ == 'g' { gech__ = big.NewInt(101) }\n")
+		sb.WriteString("\t\t_, _, _, _, _ = gneg__, gC__, gE__, gform__, gech__\n")
 	}
 	sb.WriteString("\t\tif only__ >= 0 && trial__ != only__ { continue }\n")
 	// non-nil defaults
